@@ -905,7 +905,8 @@ class Gen:
             it.kind = "newtype" if len(it.fields) == 1 else "tuple"
         it.recursive = it.recursive or any(f.ty.has("self") for f in it.all_fields()) or any(d.recursive for d in it.deps())
         if self.p.p_macro and any(True for _ in it.all_fields()) and self.r.random() < self.p.p_macro:
-            it.via_macro = True if it.concrete else self.r.choice([True, True, "tymacro"])
+            # (built-in derives such as Clone refuse items with macros in type position)
+            it.via_macro = True if (it.concrete or not self.p.ts_only) else self.r.choice([True, True, "tymacro"])
             it.tags.append("k:declared-by-macro" if it.via_macro is True else "k:field-types-are-macro-invocations")
         if self.p.placements:
             self.place(it)
